@@ -1,6 +1,55 @@
 package main
 
-func registerExtraIntrinsics() {}
+import (
+	"math/big"
+
+	"golang.org/x/tools/go/ssa"
+)
+
+func registerExtraIntrinsics() {
+	intrinsics["(*math/big.Int).SetString"] = inBigSetString
+	intrinsics["(*math/big.Int).Text"] = inBigText
+}
+
+// math/big by contract.  Concrete text is evaluated natively; symbolic text is
+// handled by the C17 contract (see bigcontract in c17 support).
+type bigVal struct {
+	conc *big.Int
+	sym  *bigSym
+}
+
+func inBigSetString(e *Exec, args []Value, site *ssa.CallCommon) Value {
+	z := args[0].(*PtrV)
+	base := args[2].(*Term)
+	if !base.IsConst() {
+		panic(e.unsupported("big.Int.SetString with symbolic base"))
+	}
+	if s, ok := e.concreteString(args[1].(*StrV)); ok {
+		v, ok := new(big.Int).SetString(s, int(base.val))
+		if !ok {
+			return &TupleV{E: []Value{&PtrV{}, e.tb.False()}}
+		}
+		e.bigInts[z.c] = &bigVal{conc: v}
+		return &TupleV{E: []Value{z, e.tb.True()}}
+	}
+	return e.bigSetStringSym(z, args[1].(*StrV), int(base.val))
+}
+
+func inBigText(e *Exec, args []Value, site *ssa.CallCommon) Value {
+	x := args[0].(*PtrV)
+	base := args[1].(*Term)
+	if x.c == nil {
+		return e.constString("<nil>")
+	}
+	bv := e.bigInts[x.c]
+	if bv == nil {
+		bv = &bigVal{conc: new(big.Int)}
+	}
+	if bv.conc != nil {
+		return e.constString(bv.conc.Text(int(base.val)))
+	}
+	return e.bigTextSym(bv.sym, int(base.val))
+}
 
 func (e *Exec) traceVarTime(kind string, x, y *StrV) {
 	if e.opaque["tracing"] != true {
